@@ -1,4 +1,7 @@
 import YProofs.Lemmas.DMpsAdd
+import YProofs.Lemmas.DMpsMul
+import YProofs.Lemmas.DMpsEnv
+import Mathlib.Tactic.FieldSimp
 /-!
 # C06 — MPS/MPO algebra agrees with the states and operators it represents (dense level)
 
@@ -120,5 +123,267 @@ theorem amp_add (ts : List (K × State K)) (φ : State K) (c : Config)
           | 0 => exact absurd hn hN0
           | 1 => exact runF_addSites_one qs c (hgood 1 hn)
           | n + 2 => exact runF_addSites n qs c (hgood (n + 2) hn)
+
+/-! ## `toVec_smul` -/
+
+section smul
+variable {F : Type} [Field F] [DecidableEq F]
+
+/-- **toVec_smul** (clause "multiplication by scalars, including the separate norm factor"): `ψ * c` stores the
+modulus `am` in `factor` and the phase `c/am` in the first tensor and represents `c · ψ`; in the `am = 0` branch
+only `factor` changes and the represented state is zero.  (`am = |c|` is an input of the model; the theorem needs
+only `am ≠ 0`, resp. `am = 0`.) -/
+theorem amp_smul (c am : F) (ψ : State F) (hψ : ψ.periodic = false) (hne : ψ.sites ≠ []) (σ : Config) :
+    (am ≠ 0 → amp (smul c am ψ) σ = c * amp ψ σ) ∧ (am = 0 → amp (smul c am ψ) σ = 0) := by
+  constructor
+  · intro ham
+    have hp : (smul c am ψ).periodic = false := by unfold smul; simp [ham, hψ]
+    rw [amp_eq_of_open hp, amp_eq_of_open hψ]
+    unfold smul
+    simp only [ham, if_false]
+    match hs : ψ.sites, hne with
+    | A :: As, _ =>
+      simp only [runF]
+      rw [stepF_scale, runF_smul]
+      field_simp
+  · intro ham
+    subst ham
+    unfold smul amp
+    simp
+
+/-- the factor after scalar multiplication is `am · factor` (so it stays real and non-negative when `am = |c|`) -/
+theorem factor_smul (c am : F) (ψ : State F) : (smul c am ψ).factor = am * ψ.factor := by
+  unfold smul; split <;> rfl
+
+end smul
+
+/-! ## `toVec_conj`, `toMat_transpose`, `toMat_conjTranspose` -/
+
+section conj
+variable [HasConj K] (hc : ConjLaws K)
+include hc
+
+theorem stepF_conj (v : Nat → K) (A : Site K) (s t : Nat) :
+    stepF (fun i => HasConj.conj (v i)) (conjSite A) s t = fun r => HasConj.conj (stepF v A s t r) := by
+  funext r
+  unfold stepF conjSite
+  by_cases hr : r < A.Dr
+  · simp only [hr, if_true]
+    rw [conj_sum hc]
+    exact sum_congr rfl (fun l _ => by rw [hc.mul])
+  · simp [hr, hc.zero]
+
+theorem runF_conj (sites : List (Site K)) (σ : Config) (v : Nat → K) :
+    runF (sites.map conjSite) σ (fun i => HasConj.conj (v i)) = fun r => HasConj.conj (runF sites σ v r) := by
+  induction sites generalizing σ v with
+  | nil => rfl
+  | cons A As ih => simp only [List.map_cons, runF]; rw [stepF_conj hc, ih]
+
+theorem e0_conj : (fun i => HasConj.conj ((e0 : Nat → K) i)) = e0 := by
+  funext i; unfold e0; split <;> simp [hc.zero, hc.one]
+
+/-- **toVec_conj**: `conj()` conjugates every tensor and leaves `factor` alone; it represents the complex conjugate
+whenever `factor` is real (`conj factor = factor`, the documented convention). -/
+theorem amp_conj (ψ : State K) (hψ : ψ.periodic = false) (hf : HasConj.conj ψ.factor = ψ.factor) (σ : Config) :
+    amp (conj ψ) σ = HasConj.conj (amp ψ σ) := by
+  have hp : (conj ψ).periodic = false := hψ
+  rw [amp_eq_of_open hp, amp_eq_of_open hψ, hc.mul, hf]
+  have := runF_conj hc ψ.sites σ e0
+  rw [e0_conj hc] at this
+  show ψ.factor * runF (ψ.sites.map conjSite) σ e0 0 = _
+  rw [this]
+
+end conj
+
+theorem headD_swap (σ : Config) : (σ.map Prod.swap).headD (0, 0) = (σ.headD (0, 0)).swap := by
+  cases σ <;> rfl
+
+theorem runF_trans (sites : List (Site K)) (σ : Config) (v : Nat → K) :
+    runF (sites.map transSite) σ v = runF sites (σ.map Prod.swap) v := by
+  induction sites generalizing σ v with
+  | nil => rfl
+  | cons A As ih =>
+    simp only [List.map_cons, runF]
+    rw [ih, headD_swap, List.map_tail]
+    rfl
+
+/-- **toMat_transpose**: `transpose()` / `.T` of an MPO swaps the ket and bra index of every site, i.e. represents
+the transposed matrix; for an MPS it is the identity. -/
+theorem amp_transpose (ψ : State K) (hψ : ψ.periodic = false) (σ : Config) :
+    amp (transpose ψ) σ = if ψ.nrPhys = 1 then amp ψ σ else amp ψ (σ.map Prod.swap) := by
+  unfold transpose
+  by_cases h : ψ.nrPhys = 1
+  · simp [h]
+  · simp only [h, if_false]
+    rw [amp_eq_of_open (ψ := { ψ with sites := ψ.sites.map transSite }) hψ, amp_eq_of_open hψ, runF_trans]
+
+theorem conjTranspose_eq [HasConj K] (ψ : State K) (h : ψ.nrPhys ≠ 1) : conjTranspose ψ = conj (transpose ψ) := by
+  unfold conjTranspose conj transpose
+  simp [h, List.map_map, Function.comp_def]
+
+/-- **toMat_conjTranspose**: `.H` represents the conjugate-transposed matrix (real `factor`); for an MPS it is `conj()`. -/
+theorem amp_conjTranspose [HasConj K] (hc : ConjLaws K) (ψ : State K) (hψ : ψ.periodic = false)
+    (hf : HasConj.conj ψ.factor = ψ.factor) (σ : Config) :
+    amp (conjTranspose ψ) σ = if ψ.nrPhys = 1 then HasConj.conj (amp ψ σ) else HasConj.conj (amp ψ (σ.map Prod.swap)) := by
+  by_cases h : ψ.nrPhys = 1
+  · simp only [h, if_true]
+    have : conjTranspose ψ = conj ψ := by unfold conjTranspose; simp [h]
+    rw [this, amp_conj hc ψ hψ hf]
+  · simp only [h, if_false]
+    have hp : (transpose ψ).periodic = false := by unfold transpose; simp [h, hψ]
+    have hf' : HasConj.conj (transpose ψ).factor = (transpose ψ).factor := by unfold transpose; simp [h, hf]
+    rw [conjTranspose_eq ψ h, amp_conj hc _ hp hf', amp_transpose ψ hψ]
+    simp [h]
+
+/-! ## `toMat_mpoMps`, `toMat_mpoMpo` -/
+
+theorem sumU_mul_left (ds : List Nat) (a : K) (f : List Nat → K) :
+    a * sumU ds f = sumU ds (fun us => a * f us) := by
+  induction ds generalizing f with
+  | nil => rfl
+  | cons d ds ih => simp only [sumU, mul_sum, ih]
+
+theorem e0_kron : (e0 : Nat → K) = kron 1 e0 e0 := by
+  funext l
+  unfold kron e0
+  simp [Nat.mod_one]
+
+/-- **toMat_mpoMps / toMat_mpoMpo** (clause "MPO-MPS and MPO-MPO products"): the site-wise product with
+Kronecker-fused virtual legs built by `multiply` / `@` represents the matrix–vector (bra dimension of `b` one) resp.
+matrix–matrix product: the entry at `σ = (sᵢ, tᵢ)ᵢ` is the sum over all intermediate index strings `u` of
+`a[(sᵢ,uᵢ)] · b[(uᵢ,tᵢ)]`; the factors multiply.  Any `N ≥ 0`, any bond dimensions of `a`, matching bonds in `b`. -/
+theorem amp_multiply (a b φ : State K) (σ : Config)
+    (hb : Matching b.sites) (hb1 : (headSite b.sites).Dl = 1) (hσ : σ.length = b.sites.length)
+    (h : multiply a b = .ok φ) :
+    amp φ σ = sumU (a.sites.map (·.db)) (fun us => amp a (cfgA σ us) * amp b (cfgB σ us))
+      ∧ φ.factor = a.factor * b.factor := by
+  unfold multiply at h
+  split at h
+  · simp at h
+  · split at h
+    · simp at h
+    · split at h
+      · simp at h
+      · rename_i hper hN hnr
+        simp only [Except.ok.injEq] at h
+        subst h
+        simp only [Bool.or_eq_true, not_or, Bool.not_eq_true] at hper
+        refine ⟨?_, rfl⟩
+        have hN' : a.sites.length = b.sites.length := by simpa using hN
+        rw [amp_eq_of_open (ψ := ⟨a.nrPhys + b.nrPhys - 2, List.zipWith mulSite a.sites b.sites,
+              a.factor * b.factor, false⟩) rfl]
+        simp only
+        rw [e0_kron, ← hb1, runF_mul a.sites b.sites σ e0 e0 hN' hσ hb, sumU_mul_left]
+        congr 1
+        funext us
+        rw [amp_eq_of_open hper.1, amp_eq_of_open hper.2]
+        ring
+
+/-! ## `overlap_eq_inner` -/
+
+theorem sumCfg_mul_left (ds : List (Nat × Nat)) (a : K) (f : Config → K) :
+    a * sumCfg ds f = sumCfg ds (fun c => a * f c) := by
+  induction ds generalizing f with
+  | nil => rfl
+  | cons d ds ih => simp only [sumCfg, mul_sum, ih]
+
+theorem delta_rank1 [HasConj K] (hc : ConjLaws K) :
+    (mkMat 1 1 (delta : Nat → Nat → K)).get = rank1 e0 e0 := by
+  rw [Mat_get_fun]
+  funext b k
+  unfold rank1 e0 delta
+  by_cases hb : b = 0 <;> by_cases hk : k = 0
+  · subst hb; subst hk; simp [hc.one]
+  · subst hb; have : ¬ k < 1 := by omega
+    simp [hk, this]
+  · subst hk; have : ¬ b < 1 := by omega
+    simp [hb, this, hc.zero]
+  · have : ¬ b < 1 := by omega
+    simp [hb, this, hc.zero]
+
+/-- **overlap_eq_inner** (clause "measure_overlap returns the corresponding inner product"), full left sweep
+(`measure_overlap` = `Env2.measure(bd=(-1, N))`): the left environment recursion through all `N` sites, closed with
+the identity on the last bond and multiplied by the two factors, equals the sum over all configurations of
+`conj(bra coefficient) · ket coefficient`.  Every `N`, all bond dimensions (last bonds non-empty). -/
+theorem overlap_eq_inner [HasConj K] (hc : ConjLaws K) (bra ket : State K)
+    (hlen : bra.sites.length = ket.sites.length)
+    (hb : 0 < bondDim bra.sites bra.sites.length) (hk : 0 < bondDim ket.sites bra.sites.length) :
+    overlap bra ket = bra.factor * ket.factor *
+      sumCfg (dims bra) (fun c => HasConj.conj (runF bra.sites c e0 0) * runF ket.sites c e0 0) := by
+  unfold overlap overlapAt
+  have e1 : bra.sites.take bra.sites.length = bra.sites := List.take_length
+  have e2 : ket.sites.take bra.sites.length = ket.sites := by rw [hlen]; exact List.take_length
+  have e3 : bra.sites.drop bra.sites.length = [] := List.drop_length
+  have e4 : ket.sites.drop bra.sites.length = [] := by rw [hlen]; exact List.drop_length
+  rw [e1, e2, e3, e4]
+  simp only [sumN_eq, envR]
+  rw [envL_get, delta_rank1 hc]
+  have hR : ∀ k b, rank1 (e0 : Nat → K) e0 k b = if k = 0 ∧ b = 0 then 1 else 0 := by
+    intro k b
+    unfold rank1 e0
+    by_cases h1 : k = 0 <;> by_cases h2 : b = 0 <;> simp [h1, h2, hc.one, hc.zero]
+  congr 1
+  simp only [hR]
+  rw [sum_eq_single 0]
+  · rw [sum_eq_single 0]
+    · simp only [and_self, if_true, mul_one]
+      exact envLF_rank1 hc bra.sites ket.sites e0 e0 hlen
+    · intro k _ hk0; simp [hk0]
+    · intro h; exact absurd (mem_range.mpr hk) h
+  · intro b _ hb0
+    apply sum_eq_zero; intro k _; simp [hb0]
+  · intro h; exact absurd (mem_range.mpr hb) h
+
+/-- with a real `factor` of the bra (the documented convention) the overlap is `⟨toVec bra, toVec ket⟩` -/
+theorem overlap_eq_vdot [HasConj K] (hc : ConjLaws K) (bra ket : State K)
+    (hbp : bra.periodic = false) (hkp : ket.periodic = false)
+    (hlen : bra.sites.length = ket.sites.length)
+    (hb : 0 < bondDim bra.sites bra.sites.length) (hk : 0 < bondDim ket.sites bra.sites.length)
+    (hf : HasConj.conj bra.factor = bra.factor) :
+    overlap bra ket = sumCfg (dims bra) (fun c => HasConj.conj (amp bra c) * amp ket c) := by
+  rw [overlap_eq_inner hc bra ket hlen hb hk, sumCfg_mul_left]
+  congr 1
+  funext c
+  rw [amp_eq_of_open hbp, amp_eq_of_open hkp, hc.mul, hf]
+  ring
+
+/-! ## sums of MPOs (partial) and statements that are not proved yet
+
+* `measureMpo_sum_partial` below is the linearity of `Env_sum.measure` in the list of operators.
+* NOT PROVED (full statements, checked only through the correspondence and the NumPy oracles of the harness):
+  - `overlapAt_eq_inner`: `∀ n ≤ N, overlapAt n bra ket = overlap bra ket` (environment closed at ANY bond; the
+    theorem `overlap_eq_inner` above covers the full left sweep `n = N`, which is what `measure_overlap` runs);
+  - `measureMpo_eq`: `measureMpoAt n bra op ket = Σ_{σ,τ} conj(amp bra σ) · amp op (σ,τ) · amp ket τ` for every `n`,
+    and for a periodic operator with `amp` defined by the trace closure `coefPbc`;
+  - `toVec_reverseSites`: `amp (reverseSites ψ) σ = amp ψ σ.reverse`;
+  - `toVec_product`: `amp (product nr vs) σ = Π_i vs_i(σ_i)`;
+  - zipper / variational compression without truncation (SVD/QR contracts): harness oracle only. -/
+
+theorem measureMpo_sum_partial [HasConj K] (n : Nat) (bra : State K) (op : State K) (ops : List (State K)) (ket : State K) :
+    measureMpoSumAt n bra (op :: ops) ket = measureMpoAt n bra op ket + measureMpoSumAt n bra ops ket ∧
+    measureMpoSumAt n bra ([] : List (State K)) ket = 0 := ⟨rfl, rfl⟩
+
+/-! ## non-vacuity: the hypotheses hold on a concrete two-site instance with bond dimension 2 -/
+
+section examples
+
+instance : HasConj Int := ⟨id⟩
+
+def exA0 : Site Int := ⟨2, 1, 1, 2, fun s _ _ r => (s : Int) + 2 * r + 1⟩
+def exA1 : Site Int := ⟨2, 1, 2, 1, fun s _ l _ => (s : Int) - l + 1⟩
+def exψ : State Int := { nrPhys := 1, sites := [exA0, exA1], factor := 2 }
+def exW : Site Int := ⟨2, 2, 1, 1, fun s t _ _ => (s : Int) + 3 * t⟩
+def exH : State Int := { nrPhys := 2, sites := [exW, exW], factor := 3 }
+
+example : WF exψ := ⟨rfl, by simp [exψ], ⟨rfl, rfl⟩, rfl⟩
+example : ConjLaws Int := ⟨fun _ _ => rfl, fun _ _ => rfl, rfl, rfl⟩
+example : ∃ φ, add [exψ, exψ] [3, -1] = .ok φ := ⟨_, rfl⟩
+example : ∃ φ, multiply exH exψ = .ok φ ∧ Matching exψ.sites ∧ (headSite exψ.sites).Dl = 1 := ⟨_, rfl, ⟨rfl, trivial⟩, rfl⟩
+example : 0 < bondDim exψ.sites exψ.sites.length := by decide
+/-- the represented amplitudes are not all zero: `amp exψ [(1,0),(0,0)] = 2·(2·1 + 4·0) = 4` -/
+example : runF exψ.sites [(1, 0), (0, 0)] e0 0 = 2 := by
+  simp [runF, stepF, exψ, exA0, exA1, e0, sum_range_succ]
+
+end examples
 
 end YModel.DMps
